@@ -696,6 +696,11 @@ func (w *htlcWorkload) pickTo(sender int, tag *htTag) string {
 		return w.r.Acc(sender).Addr.String()
 	case 4, 5, 6:
 		tag.Note += "/to-fresh"
+		if rng.Intn(2) == 0 {
+			// a 32-byte account address (derived, interchain and group-policy accounts have such addresses)
+			tag.Note += "-32-bytes"
+			return sdk.AccAddress([]byte(fmt.Sprintf("htlc-fresh-32-byte-addres-%06d", rng.Intn(1000000)))).String()
+		}
 		return sdk.AccAddress([]byte(fmt.Sprintf("htlc-fresh-addr-%06d", rng.Intn(1000000)))).String()
 	case 7, 8:
 		tag.Note += "/to-module"
